@@ -8,12 +8,24 @@
 namespace sim {
 
 // kind: 0 truncate, 1 delete token, 2 duplicate, 3 replace, 4 swap with next, 5 insert structural word,
-// 6 EOF inside a string, 7 EOF inside a comment, 8 flip one byte, 9 splice: replace the tail by the tail of `other`
+// 6 EOF inside a string, 7 EOF inside a comment, 8 flip one byte, 9 splice: replace the tail by the tail of `other`, 10 empty a loop body
 inline std::string damage_text(Rng& r, const std::string& q, int kind, size_t k, std::string& desc, const std::string& other = "") {
   RefLexResult lx = reflex(q);
   if (lx.tokens.empty()) { desc = "empty"; return q + " end;"; }
   k %= lx.tokens.size();
   const RefToken& t = lx.tokens[k];
+  if (kind == 10) { // empty the body of the first loop at or after token k (every statement between LOOP and its END LOOP is removed)
+    auto low = [](std::string w) { for (auto& c : w) c = (char)tolower((unsigned char)c); return w; };
+    for (size_t i = k; i < lx.tokens.size(); ++i) if (low(lx.tokens[i].text) == "loop" && (i == 0 || low(lx.tokens[i - 1].text) != "end")) {
+      int depth = 1;
+      for (size_t j = i + 1; j + 1 < lx.tokens.size(); ++j) {
+        std::string w = low(lx.tokens[j].text), w2 = low(lx.tokens[j + 1].text);
+        if (w == "end" && w2 == "loop") { if (--depth == 0) { desc = "empty the loop body after token #" + std::to_string(i); return q.substr(0, lx.tokens[i].end) + " " + q.substr(lx.tokens[j].pos); } ++j; }
+        else if (w == "loop") ++depth;
+      }
+      break; }
+    kind = 1;   // no loop behind token k: delete the token instead
+  }
   switch (kind) {
   case 0: desc = "truncate before token #" + std::to_string(k) + " '" + printable(t.text, 20) + "'"; return q.substr(0, t.pos);
   case 1: desc = "delete token #" + std::to_string(k) + " '" + printable(t.text, 20) + "'"; return q.substr(0, t.pos) + q.substr(t.end);
